@@ -178,7 +178,7 @@ def nontrivial(prog, steps):
 
 def main(argv):
     return rcheck.run(
-        PID, argv, module=None, theorems=[], gen=gen, oracle=oracle, nontrivial=nontrivial,
+        PID, argv, module="C16", theorems=["C16_use_context_nearest","C16_nearest_functional","C16_lookup_total","C16_shadow_local","C16_duplicate_panics","C16_provide_visible","C16_context_cleared"], gen=gen, oracle=oracle, nontrivial=nontrivial,
         rule=("scope trees of depth <= 4 with provisions of 3 types at arbitrary nodes, lookups from every scope, via run_in from "
               "ancestors/siblings/root, and from effects re-run by later writes; rare duplicate provisions; random programs "
               "with contexts provided inside callbacks and disposals (model-vs-code only when outside the reference walk's "
